@@ -27,10 +27,16 @@ func some(r *rand.Rand, xs ...N) []N {
 	return out
 }
 
-// Scenario returns a (history, mutation, observation) triple.
-func Scenario(r *rand.Rand) (h, m, q []N) {
+// Families is the number of targeted families.
+const Families = 21
+
+// Scenario returns a (history, mutation, observation) triple of a random family.
+func Scenario(r *rand.Rand) (h, m, q []N) { return ScenarioOf(r.Intn(Families), r) }
+
+// ScenarioOf returns a random variant of the given family.
+func ScenarioOf(family int, r *rand.Rand) (h, m, q []N) {
 	base := []N{Var("a", Num(1)), Var("b", Str("s")), Var("c", nil), Var("n", Num(0))}
-	switch r.Intn(21) {
+	switch family {
 	case 0: // accessor properties: getter/setter functions are objects of the heap
 		acc := Obj()
 		if r.Intn(3) != 0 {
@@ -153,11 +159,19 @@ func Scenario(r *rand.Rand) (h, m, q []N) {
 	case 16: // the single [[ThrowTypeError]] function of a runtime (13.2.3): bound functions made before and after the copy share it
 		gd := func(o N, n string) N { return od("getOwnPropertyDescriptor", o, Str(n)) }
 		h = []N{FDecl("tf", nil, Return(Num(1))), Var("b1", Call(Dot(Id("tf"), "bind"), Null())), Var("t1", Dot(gd(Id("b1"), "caller"), "get"))}
+		if r.Intn(2) == 0 {
+			// bind was used before the copy, but neither a bound function nor the thrower is reachable at copy time
+			h = []N{FDecl("tf", nil, Return(Num(1))), Expr(Call(Dot(Id("tf"), "bind"), Null())), Var("b1", Id("tf")), Var("t1", nil)}
+		}
 		m = some(r, Var("bm", Call(Dot(Id("tf"), "bind"), Null())), Expr(Asg("=", Dot(Id("tf"), "tag"), Num(1))))
 		q = []N{Var("b2", Call(Dot(Id("tf"), "bind"), Obj())),
-			hc(Bin("===", Id("t1"), Dot(gd(Id("b2"), "caller"), "get")), Bin("===", Id("t1"), Dot(gd(Id("b2"), "arguments"), "set")),
-				Bin("===", Dot(gd(Id("b1"), "arguments"), "get"), Dot(gd(Id("b2"), "caller"), "set")), Un("typeof", Id("t1"))),
-			Try([]N{Expr(Call(Id("t1")))}, "e", []N{hc(Str("thrower"), Bin("instanceof", Id("e"), Id("TypeError")))}, true, nil, false),
+			Var("t2", Dot(gd(Id("b2"), "caller"), "get")),
+			hc(Bin("===", Bin("||", Id("t1"), Id("t2")), Id("t2")), Bin("===", Id("t2"), Dot(gd(Id("b2"), "arguments"), "set")),
+				Bin("===", Dot(gd(Call(Dot(Id("tf"), "bind"), Num(1)), "arguments"), "get"), Dot(gd(Id("b2"), "caller"), "set")), Un("typeof", Id("t2")),
+				// the thrower is a function of THIS runtime
+				// (the global Function is outside the modelled fragment: compare with the prototype of a function of this runtime)
+				Bin("===", od("getPrototypeOf", Id("t2")), od("getPrototypeOf", Id("tf"))), Bin("instanceof", Id("t2"), Id("Object")), od("isExtensible", Id("t2"))),
+			Try([]N{Expr(Call(Id("t2")))}, "e", []N{hc(Str("thrower"), Bin("instanceof", Id("e"), Id("TypeError")), Bin("===", od("getPrototypeOf", Id("e")), Dot(Id("TypeError"), "prototype")))}, true, nil, false),
 			Try([]N{Expr(Dot(Id("b2"), "caller"))}, "e", []N{hc(Str("caller"), Bin("instanceof", Id("e"), Id("TypeError")))}, true, nil, false)}
 	case 17: // several with-environments over ONE object, each inside a different activation
 		h = []N{Var("wo", Obj("shared", Num(1))),
